@@ -1608,6 +1608,48 @@ func c01TolerateAll(r *Run) {
 		}
 	}
 	r.Check("C01.R7", "taint scan continues", r.Prog.Pos(instrPos(loop.Header.Instrs[len(loop.Header.Instrs)-1])), shortFunc(fn), "the scan moves to the next taint only if the filter rejects the taint or a toleration tolerates it", good, detail)
+	// converse (eligibility is exact): the scan gives up (returns false) only for a taint that the
+	// filter selected — or with no filter at all — and that no toleration tolerates; the filter is
+	// called only when it is not nil
+	inLoopReturn := func(b *ssa.BasicBlock) bool { return isReturnBlock(b) && loop.In[b] && b != loop.Header }
+	stopOut := func(b *ssa.BasicBlock) bool { return !loop.In[b] || b == loop.Header }
+	rpaths, okr := enumPaths(fn, k, loop.Body, inLoopReturn, stopOut, 500)
+	r.paths += len(rpaths)
+	goodF, detailF, nFalse := okr, "", 0
+	isFilterCall := func(v ssa.Value) bool {
+		c, ok := v.(*ssa.Call)
+		return ok && c.Call.Value == ssa.Value(filter) && len(c.Call.Args) == 1 && loop.isElem(k, c.Call.Args[0])
+	}
+	isFilter := func(v ssa.Value) bool { return unwrap(v) == ssa.Value(filter) }
+	for _, p := range rpaths {
+		ret := returnOf(p.Blocks[len(p.Blocks)-1])
+		res := p.Resolve(ret.Results[0])
+		if b, isC := constBool(res); !isC || b {
+			continue
+		}
+		nFalse++
+		selected := valueFactC(p.Facts, true, isFilterCall) || nilFactC(p.Facts, true, isFilter)
+		untolerated := valueFactC(p.Facts, false, func(v ssa.Value) bool {
+			c, ok := isCallTo(v, pkgSched+".TolerationsTolerateTaint")
+			return ok && c.Call.Args[0] == ssa.Value(tolerations) && loop.isElem(k, c.Call.Args[1])
+		})
+		if !selected || !untolerated {
+			goodF = false
+			detailF = "false is returned for a taint on a path with facts " + descFactsC(p.Facts)
+		}
+	}
+	r.Check("C01.R7", "taint scan rejects", r.Prog.Pos(instrPos(loop.Header.Instrs[len(loop.Header.Instrs)-1])), shortFunc(fn),
+		"a node is rejected for a taint only if the filter selected that taint (or there is no filter) and no toleration tolerates it — taints the filter ignores never make a node ineligible", goodF && nFalse > 0, detailF)
+	// the filter is invoked only under filter != nil
+	ffT := computeFacts(fn)
+	goodN, detailN := true, ""
+	for _, ci := range callsIn(fn) {
+		if ci.Common().Value == ssa.Value(filter) && !nilFactC(ffT.At(ci.Block()), false, isFilter) {
+			goodN = false
+			detailN = "the filter is called at " + r.Prog.Pos(ci.Pos()) + " without the fact filter != nil"
+		}
+	}
+	r.Check("C01.R7", "taint filter nil-guarded", r.Prog.Pos(fn.Pos()), shortFunc(fn), "the optional filter is called only where it is known to be non-nil", goodN, detailN)
 	cases, _, ok := boolCasesC(fn, 0, 500)
 	good = ok
 	detail = ""
@@ -1864,6 +1906,64 @@ func c01Terms(r *Run, affFns map[*ssa.Function]bool) {
 					r.Check("C01.R7", "node-selector term honours "+f, pos, shortFunc(fn),
 						"a node-selector term matches only if its "+f+" list is empty or the selector built from it matches", good && nTrue > 0, detail)
 				}
+				// converse (eligibility is exact): a term is passed over only if it is empty (every list empty)
+				// or one of its non-empty lists could not be converted or did not match
+				bpaths, okb := backEdgePathsC(fn, k, l.Header, l.Body, l.In, 5000)
+				r.paths += len(bpaths)
+				goodS, detailS := okb, ""
+				for _, p := range bpaths {
+					skipOK := c01TermSkipJustified(p.Facts, lists, func(f string) func(ssa.Value) bool {
+						return func(v ssa.Value) bool { pp, isEl := l.elemPath(k, v); return isEl && pathIsC(pp, f) }
+					})
+					if !skipOK {
+						// judged by a repository predicate taking the term: every way it returns false must be justified
+						for _, ft := range p.Facts {
+							call, isCall := ft.V.(*ssa.Call)
+							if !isCall || ft.Pol {
+								continue
+							}
+							h := repoCalleeC(&call.Call)
+							if h == nil {
+								continue
+							}
+							for i, a := range call.Call.Args {
+								if !l.isElem(k, a) || i >= len(h.Params) {
+									continue
+								}
+								hp := h.Params[i]
+								hcases, _, okh := boolCasesC(h, 0, 2000)
+								all := okh
+								nF := 0
+								for _, hc := range hcases {
+									if hc.Result {
+										continue
+									}
+									nF++
+									if !c01TermSkipJustified(hc.Facts, lists, func(f string) func(ssa.Value) bool {
+										return func(v ssa.Value) bool {
+											root, pp := accessPath(unwrap(v))
+											if al, isA := root.(*ssa.Alloc); isA && spillOfC(al) == ssa.Value(hp) {
+												root = hp
+											}
+											return root == ssa.Value(hp) && pathIsC(pp, f)
+										}
+									}) {
+										all = false
+									}
+								}
+								if all && nF > 0 {
+									skipOK = true
+								}
+							}
+						}
+					}
+					if !skipOK {
+						goodS = false
+						detailS = "a term is passed over on a path with facts: " + descFactsC(p.Facts)
+					}
+				}
+				r.Check("C01.R7", "node-selector term skipped only when empty or mismatching", pos, shortFunc(fn),
+					"a term is passed over only if all its requirement lists are empty, or a non-empty list failed to convert or did not match (a term carrying only one kind of requirement still counts)", goodS, detailS)
 				// true only from inside the scan
 				cases, _, okc := boolCasesC(fn, 0, 5000)
 				goodT, detailT := okc, ""
@@ -1919,4 +2019,42 @@ func c01ListHonoured(fs factSet, isList func(ssa.Value) bool) (empty, matched bo
 		return dependsOn(call.Call.Value, isList)
 	})
 	return empty, matched
+}
+
+// c01TermSkipJustified: the facts justify passing over a term: every requirement list is known to be
+// empty, or for some list the selector conversion failed (err != nil) or the selector built from it
+// does not match.
+func c01TermSkipJustified(fs factSet, lists []string, isListOf func(f string) func(ssa.Value) bool) bool {
+	allEmpty := len(lists) > 0
+	for _, f := range lists {
+		isList := isListOf(f)
+		empty, _ := c01ListHonoured(fs, isList)
+		if !empty {
+			allEmpty = false
+		}
+		mismatch := valueFactC(fs, false, func(v ssa.Value) bool {
+			call, isCall := v.(*ssa.Call)
+			return isCall && call.Call.IsInvoke() && call.Call.Method.Name() == "Matches" && dependsOn(call.Call.Value, isList)
+		})
+		convErr := nilFactC(fs, false, func(v ssa.Value) bool {
+			e, isE := v.(*ssa.Extract)
+			if !isE {
+				return false
+			}
+			call, isCall := e.Tuple.(*ssa.Call)
+			if !isCall || e.Type().String() != "error" {
+				return false
+			}
+			for _, a := range call.Call.Args {
+				if isList(a) {
+					return true
+				}
+			}
+			return false
+		})
+		if mismatch || convErr {
+			return true
+		}
+	}
+	return allEmpty
 }
